@@ -197,6 +197,12 @@ func outlSx(o sfnt.Outlines, fileView bool) (v.Sx, error) {
 		}
 		sort.Strings(keys)
 		for _, k := range keys {
+			if len(o.Tables[k]) == 0 {
+				// an empty table is the same as no table to this library
+				// (header.Info.Has): it is written as a directory entry of
+				// length 0 and not read back
+				continue
+			}
 			parts = append(parts, []byte(k), o.Tables[k])
 		}
 		widths, names, mx := v.Sx(none), v.Sx(none), v.Sx(none)
